@@ -141,6 +141,52 @@ def one_case(rng):
     return None
 
 
+# processor-specific codes 0x70000000 / 0x70000001 by machine (glibc elf.h; ARM EHABI): the name depends on e_machine of the
+# file the object was opened on -- also when another file of the same class and byte order is open at the same time
+MACH = {40: ({0x70000001: 'SHT_ARM_EXIDX'}, {0x70000001: 'PT_ARM_EXIDX'}),
+        8: ({0x70000006: 'SHT_MIPS_REGINFO', 0x7000002a: 'SHT_MIPS_ABIFLAGS'}, {0x70000003: 'PT_MIPS_ABIFLAGS'}),
+        3: ({0x70000001: 0x70000001}, {0x70000001: 0x70000001})}
+
+
+def _mach_image(cls, le, machine, shts, pts):
+    e = '<' if le else '>'
+    ehsz, shstd, phstd = (64, 64, 56) if cls == 64 else (52, 40, 32)
+    strtab = b'\x00.a\x00.shstrtab\x00'
+    phoff = ehsz
+    body = b''.join(_ph(cls, e, dict(p_type=t, p_offset=0, p_vaddr=0, p_paddr=0, p_filesz=0, p_memsz=0, p_flags=4, p_align=1)) for t in pts)
+    stroff = ehsz + len(body)
+    body += strtab
+    shoff = ehsz + len(body)
+    null = dict.fromkeys(SH_FIELDS, 0)
+    secs = [null] + [dict(null, sh_name=1, sh_type=t, sh_offset=stroff, sh_size=0) for t in shts] + \
+        [dict(null, sh_name=4, sh_type=3, sh_offset=stroff, sh_size=len(strtab), sh_addralign=1)]
+    tab = b''.join(_sh(cls, e, h) for h in secs)
+    ident = b'\x7fELF' + bytes([1 if cls == 32 else 2, 1 if le else 2, 1, 0]) + b'\x00' * 8
+    fmt = 'HHIQQQIHHHHHH' if cls == 64 else 'HHIIIIIHHHHHH'
+    return ident + struct.pack(e + fmt, 2, machine, 1, 0, phoff, shoff, 0, ehsz, phstd, len(pts), shstd, len(secs), len(secs) - 1) + body + tab
+
+
+def two_files(rng):
+    """two files of the same class and byte order but different machines, open at the same time, read alternately"""
+    from elftools.elf.elffile import ELFFile
+    cls, le = rng.choice([32, 64]), rng.random() < 0.5
+    ma, mb = rng.sample(sorted(MACH), 2)
+    imgs, objs, wants = {}, {}, {}
+    for m in (ma, mb):
+        shts, pts = sorted(MACH[m][0]), sorted(MACH[m][1])
+        imgs[m] = _mach_image(cls, le, m, shts, pts)
+        wants[m] = ([MACH[m][0][t] for t in shts], [MACH[m][1][t] for t in pts])
+    cfg = 'class %d le=%s machines %d then %d, both open' % (cls, le, ma, mb)
+    for m in (ma, mb):
+        objs[m] = ELFFile(io.BytesIO(imgs[m]))
+    for m in rng.choice([(ma, mb), (mb, ma), (ma, mb, ma)]):
+        got = ([s['sh_type'] for s in objs[m].iter_sections()][1:-1], [s['p_type'] for s in objs[m].iter_segments()])
+        if got != wants[m]:
+            return ('e_machine %d read while a file of e_machine %d is open: section / segment types %r, encoded %r' % (
+                m, mb if m == ma else ma, got, wants[m]), cfg, imgs[m].hex())
+    return None
+
+
 @task('c01-headers-differential', ['C01'], kind='bounded')
 def headers(tier, seed):
     rng = random.Random(seed + 101)
@@ -148,7 +194,7 @@ def headers(tier, seed):
     bad = None
     for _ in range(n):
         try:
-            r = one_case(rng)
+            r = one_case(rng) or (two_files(rng) if _ % 5 == 0 else None)
         except Exception as e:
             import traceback
             r = ('real code raised %r (%s)' % (e, traceback.format_exc().splitlines()[-3].strip()), '', '')
@@ -160,6 +206,7 @@ def headers(tier, seed):
                 backend='ground-eval(seeded differential, %d images)' % n, time=0.0, bounded=True, detail=bad and bad['observed'], native=bad)]
     return dict(obligations=obs, assumptions=[
         'BOUNDED: 2-8 sections with distinct names of plain types, 0-3 segments, entry sizes up to 24 bytes above the standard; extended '
-        'numbering, specialised section kinds and the named code tables are the K1 / K2 / C17 obligations'],
+        'numbering, specialised section kinds and the named code tables are the K1 / K2 / C17 obligations; every fifth case also opens two '
+        'files of one class and byte order and different machines (ARM, MIPS, i386) at once and reads their processor-specific codes alternately'],
         functions=[dict(function='elftools/elf/elffile.py:ELFFile (header, enumeration, lookups by name and index, name map construction)',
                         kind='bounded differential')], exhaustive=False)
